@@ -10,6 +10,7 @@ import (
 	"os"
 	"runtime"
 	"runtime/debug"
+	"slices"
 	"sort"
 	"strings"
 	"sync"
@@ -202,6 +203,13 @@ func run(p *Plan, count bool) error {
 	rec := &recorder{ops: make([][]porcupine.Operation, len(keys)), commits: map[int64][]effect{}}
 	served := func(key int, ver int64) fox.HandlerFunc {
 		return func(c fox.Context) {
+			// the context is this request's own until the handler returns: what it tells must not change while other
+			// requests are served
+			pat, path, pars := c.Pattern(), c.Path(), fmt.Sprint(slices.Collect(c.Params()))
+			runtime.Gosched()
+			if p2, q2, r2 := c.Pattern(), c.Path(), fmt.Sprint(slices.Collect(c.Params())); p2 != pat || q2 != path || r2 != pars {
+				rec.fail("handler of key %d: its context told pattern %q path %q params %s, and after yielding pattern %q path %q params %s", key, pat, path, pars, p2, q2, r2)
+			}
 			c.Writer().Header().Set("X-Key", fmt.Sprint(key))
 			c.Writer().Header().Set("X-Ver", fmt.Sprint(ver))
 			c.Writer().WriteHeader(200)
@@ -389,6 +397,39 @@ func run(p *Plan, count bool) error {
 						v = verOf(rte)
 					}
 					rec.add(client, st.Key, kIn{Op: "read"}, kOut{Ver: v}, call, ret)
+				case "iter-reverse", "iter-routes", "iter-prefix":
+					// the iterator entry points, left early: the loop body returns false to the iterator after the first
+					// pair, which is the other way out of its traversal
+					it := f.Iter()
+					v := int64(0)
+					switch st.Kind {
+					case "iter-reverse":
+						for m, rte := range it.Reverse(it.Methods(), k.Host, k.Path) {
+							if m == k.Method && rte.Pattern() == k.Pattern {
+								v = verOf(rte)
+							}
+							break
+						}
+						if k.Method != "GET" { // GET is the first method root: only then is the first pair the key's own
+							v = -1
+						}
+					case "iter-routes":
+						for m, rte := range it.Routes(slices.Values([]string{k.Method, "GET"}), k.Pattern) {
+							if m == k.Method {
+								v = verOf(rte)
+							}
+							break
+						}
+					case "iter-prefix":
+						v = -1
+						for range it.Prefix(it.Methods(), k.Pattern[:len(k.Pattern)/2+1]) {
+							break
+						}
+					}
+					ret := rec.clock.Add(1)
+					if v >= 0 {
+						rec.add(client, st.Key, kIn{Op: "read"}, kOut{Ver: v}, call, ret)
+					}
 				case "lookup":
 					req := rt.NewRequest(rt.Req{Method: k.Method, Host: k.Host, Path: k.Path})
 					rte, cc, tsr := f.Lookup(rt.Writer(&rt.NopWriter{H: http.Header{}}, req), req)
@@ -593,7 +634,7 @@ func genPlan(t *rapid.T) *Plan {
 	for r := 0; r < nr; r++ {
 		var steps []RStep
 		for i := 0; i < rlen; i++ {
-			st := RStep{Kind: gen.Pick(t, []string{"has", "route", "serve", "lookup", "reverse", "iter", "view", "version"}, "rkind"), Key: gen.IntR(t, 0, len(keys)-1, "rkey"), Yield: gen.Chance(t, 1, 5, "yield")}
+			st := RStep{Kind: gen.Pick(t, []string{"has", "route", "serve", "lookup", "reverse", "iter", "view", "version", "iter-reverse", "iter-routes", "iter-prefix"}, "rkind"), Key: gen.IntR(t, 0, len(keys)-1, "rkey"), Yield: gen.Chance(t, 1, 5, "yield")}
 			if gen.Chance(t, 1, 4, "infix") {
 				// requests that go through pooled sub-contexts (infix catch-all), concurrently from several readers
 				st.Kind, st.Key = gen.Pick(t, []string{"serve", "lookup"}, "ikind"), infixKey
